@@ -142,7 +142,7 @@ PROPS['C09'] = dict(
     assumptions=STD,
 )
 PROPS['C10'] = dict(
-    rules=kernel_pack(('Order',), FLAVOURS) + [_r('ORD1', rk.ord1, FLAVOURS), _r('ORD2', rm.ord2, FLAVOURS), _r('TR1', dp.tr1, DIRECTED, ('Order',)), _r('TR2', dp.tr2, DIRECTED), _r('METHOD', rk.method, FLAVOURS)],
+    rules=kernel_pack(('Order',), FLAVOURS) + [_r('ORD1', rk.ord1, FLAVOURS), _r('ORD2', rm.ord2, FLAVOURS), _r('ORD2d', rm.ord2_derived, FLAVOURS), _r('TR1', dp.tr1, DIRECTED, ('Order',)), _r('TR2', dp.tr2, DIRECTED), _r('METHOD', rk.method, FLAVOURS)],
     explanation='12 ordering kernels and 8 entries: emission before the recursive call in kernels selected by the Pre arm and after it in kernels selected by the Post arm (ORD1), assembly '
                 'root-first / root-last with node list = targets of the recorded edges (ORD2), one entering edge per reachable non-root node (DISC), LIFO descent (DFS1), no early exit (EXH).',
     decides='emission position, assembly and discovery discipline of the ordering kernels',
@@ -228,7 +228,7 @@ PROPS['C13'] = dict(
 )
 
 PROPS['C11'] = dict(
-    rules=[_r('SCC', rscc.scc_rules, DIRECTED)] + kernel_pack(('Order',), DIRECTED) + [_r('ORD1', rk.ord1, DIRECTED), _r('ORD2', rm.ord2, DIRECTED), _r('TR1', dp.tr1, DIRECTED, ('Order',)),
+    rules=[_r('SCC', rscc.scc_rules, DIRECTED)] + kernel_pack(('Order',), DIRECTED) + [_r('ORD1', rk.ord1, DIRECTED), _r('ORD2', rm.ord2, DIRECTED), _r('ORD2d', rm.ord2_derived, DIRECTED), _r('TR1', dp.tr1, DIRECTED, ('Order',)),
            _r('TR2', dp.tr2, DIRECTED), _r('METHOD', rk.method, DIRECTED), _r('MAP', rc.map_rules, DIRECTED, only=('MAP',))],
     explanation='scc() as a Kosaraju composition schema: the first pass loops over all members and appends, for every unvisited one, the complete filtered postorder (not transposed, filter '
                 'rejecting edges into visited nodes) to both the visited set and the ordering (SCC1); the second pass pops the ordering from the back, skips assigned nodes, and takes as '
